@@ -49,6 +49,14 @@ CLAIMED = {
    text="Proof for all 64 squares and all 2^64 occupancies: calcRook/BishopAttacks equal the coordinate ray walk (loops unrolled 7 with unwinding assertions); the magic tables are proved filled by the package initialiser (loop invariants over the carry-rippler subset enumeration, pointwise in an arbitrary (square, occupancy)), using per-square no-destructive-collision and mask-irrelevance lemmas over the constant tables of the working tree, hence RookMoves/BishopMoves == ray walk for every occupancy; king/knight tables and pawn shift formulas equal the set-wise geometric definitions, which are linked to the coordinate definitions by lemmas; initInBetween is proved to fill InBetween[a][b] (ends disregarded) with exactly the squares strictly between aligned squares and nothing otherwise (4 nested loop invariants, inner walk unrolled). A mechanical SSA scan shows the tables have no other writers.",
    note="Trusted: coordinate definitions in spec/geom.smt2 (walkDir, kingAtt, knightAtt, pawnAtt, between); Go runs init before use. Termination of the init loops is not proved.",
    ref="DESIGN.md section 5 C12"),
+ "C17": dict(
+   text="The position-only clause is decided mechanically over the SSA of every function reachable from Eval: the only fields of the board read anywhere in the call tree are the piece sets, the colour sets, the side to move and the halfmove clock, and no store reaches memory outside the evaluation's own locals (so castling rights, e.p. state, move number, hash history and earlier evaluations cannot influence the result). The colour-symmetry clause is proved at helper level: KNBvK, frontFill, Chebishev, the pawn attack/push formulas and the slider/leaper geometry compute for the mirror image (ranks flipped, colours exchanged) the mirror of what they compute for the original (two-copy lemmas over the real bodies).",
+   note="Not proved in this revision: symmetry of the whole of Eval (the per-piece loops and the per-colour accumulation would need functional loop contracts and a permutation-of-sums lemma), insufficientMat's symmetry (population-count arithmetic did not discharge within the timeout and is left out), table index safety. The read/write-set scan is a conservative static analysis of go/ssa, not an SMT obligation.",
+   ref="DESIGN.md section 5 C17"),
+ "C18": dict(
+   text="Safety part only: SEE is proved panic-free (all table and array indices, shifts) and write-free for every board whose piece map holds piece codes, every 15-bit move whose promotion field is a piece code and every threshold, with the loop invariant that the side index stays 0/1, the result bit stays 0/1, the per-side attacker cursors stay in pawn..bishop and the occupancy only ever loses squares.",
+   note="NOT decided in this revision: the equivalence of the answer with the capture-sequence minimax and monotonicity in the threshold (the designed bounded unrolling against a minimax specification was not built). The two seeded C18 mutations (x-ray mask, late e.p. occupancy) are therefore not detected.",
+   ref="DESIGN.md section 5 C18"),
  "C20": dict(
    text="Proof of the arithmetic core for all inputs: the Feistel network maps [0, 2^bits) into itself and is injective on it for every width 1..64 and any round function (two-copy lemma over the real body with the round function uninterpreted), shuffleIndex returns a value below n (0 for n <= 1) by cycle walking; the iterator bodies of Batches and Chunks hand consecutive, non-empty, in-range ranges to yield whose cursors advance by exactly one step (callback contract), i.e. they tile the index range resp. the batch; the line manifest built by NewChunker records, for every line returned by the reader, exactly its physical extent in the file, blank lines included (ghost file position, assumed contract of bufio.Reader.ReadSlice). The last obligation found defect F5, repaired by a fix: commit.",
    note="Assumed (documented library behaviour): bufio.Reader.ReadSlice, os.Open, os.File.ReadAt, slices.SortFunc. Not under contract in this revision: Chunker.Open (that the i-th collected address is manifest[shuffleIndex(start+i)]), Chunk.Read's slicing, and the composition of 'result is the first iterate below n' with the Lean cycle-walking lemma (spec/lean/Walk.lean) into the permutation statement.",
